@@ -163,10 +163,8 @@ def attach_handle_rules(ctx, F, rule="R17.5"):
             continue
         for n in news:
             # closure coerced to fn(): find closure aggregate feeding arg0
-            cl = None
-            for o in Prov(b).operand(n.args[0]):
-                if o[0] == "agg" and isinstance(o[1], str) and "{closure" in o[1]:
-                    cl = F.bodies.get((b.crate, o[1]))
+            cls_ = fn_operand_bodies(F, b, n.args[0])
+            cl = cls_[0] if len(cls_) == 1 else None
             if cl is None:
                 ctx.bad(rule, key + "#detach-closure", loc(b, n.bb), "cannot resolve the detach fn given to AttachHandle::new")
                 continue
@@ -207,10 +205,26 @@ def run(ctx):
     is_test_lookup = lambda c: c.def_ in lookup_defs
     is_read = lambda c: c.is_("std::sync::poison::rwlock::RwLock::<T>::read", "std::sync::rwlock::RwLock::<T>::read")
 
-    gts = [b for b in F.all_bodies(SM) if b.def_ in lookup_defs]
+    # the lookup may be split into helpers (one per source): a call counts as the thread-local / runtime lookup when its callee is a
+    # local function that reaches that source and not the other one; the body judged is every lookup that (through helpers) reaches both
+    def _reaches(b_, pred, depth=2):
+        return bool(reaches_call(F, b_, pred, depth=depth))
+    def _kind(c):
+        tl, rt = is_tl(c), is_rt(c)
+        for sb in local_callee_bodies(F, c):
+            if sb.crate == SM and sb.def_ not in rt_defs:
+                tl = tl or _reaches(sb, is_tl)
+                rt = rt or _reaches(sb, is_rt)
+        return tl, rt
+    is_tl2 = lambda c: _kind(c) == (True, False)
+    is_rt2 = lambda c: _kind(c) == (False, True)
+    gts = [b for b in F.all_bodies(SM) if b.def_ in lookup_defs and _reaches(b, is_tl, 3) and _reaches(b, is_rt, 3)]
     ctx.floor("R17.1", "get_test_sink instances", len(gts), 1)
     for b in gts:
-        precedence(ctx, "R17.1", b, is_tl, is_rt, "thread-local>runtime")
+        if not any(is_tl2(c) for c in b.calls()) and any(_kind(c) == (True, True) for c in b.calls()):
+            ctx.ok("R17.1", fnkey(b) + "#thread-local>runtime", loc(b), "lookup delegated to a helper that is judged itself")
+            continue
+        precedence(ctx, "R17.1", b, is_tl2, is_rt2, "thread-local>runtime")
     # R17.4 (library side): the panicking `append` of every global sink is the locked `try_append` plus a panic - never a clone of the
     # sink obtained with try_sink()/sink() and appended to outside the lock
     blanket = [b for b in F.all_bodies(WS_LIBS) if b.name == "append" and b.impl and (b.impl.get("trait") or "").endswith("global::GlobalEntrySink")]
@@ -323,14 +337,24 @@ def run(ctx):
                 ok = bool(sites) and b.must_pass(sites)
                 ctx.check(ok, "R17.5", fnkey(b) + "#restores", loc(b), "destructor of %s no longer %s on every path" % (nm, what), what)
     # the clear fn installed by set_test_sink resets the thread-local to None
-    for b in F.all_bodies(SM):
-        if b.kind == "Closure" and b.parent and b.parent.endswith("::set_test_sink") and "impl" in b.parent:
-            cs = [c for c in b.calls() if c.name == "set_test_sink"]
-            okc = False
-            for c in cs:
-                o = Prov(b).operand(c.args[0])
-                okc = okc or any(x[0] == "agg" and x[2] == "None" for x in o)
-            ctx.check(okc, "R17.5", fnkey(b) + "#clears-thread-local", loc(b), "thread-local guard's clear fn does not reset the test sink to None")
+    # (the fn handed to ThreadLocalTestSinkGuard::new - a closure or a named fn - calls the setter, i.e. the local function taking an
+    # Option<BoxEntrySink>, with None)
+    nclear = 0
+    for pb in F.all_bodies(SM):
+        for n in pb.calls():
+            if not (n.name == "new" and "ThreadLocalTestSinkGuard" in n.def_):
+                continue
+            for b in fn_operand_bodies(F, pb, n.args[0]):
+                nclear += 1
+                okc = False
+                for c in b.calls():
+                    subs = [sb for sb in local_callee_bodies(F, c) if sb.crate == SM and any(
+                        "Option<metrique_writer_core::sink::BoxEntrySink>" in sb.locals[i]["ty"] for i in range(1, sb.arg_count + 1))]
+                    if subs and c.args:
+                        o = Prov(b).operand(c.args[0])
+                        okc = okc or any(x[0] == "agg" and x[2] == "None" for x in o)
+                ctx.check(okc, "R17.5", fnkey(b) + "#clears-thread-local", loc(b), "thread-local guard's clear fn does not reset the test sink to None")
+    ctx.floor("R17.5", "clear fns handed to the thread-local test-sink guard", nclear, 1)
     # compile-fail witnesses (type-level part of the property), discharged by rustc's type checker
     from mq import witness as _w
     _w.report_cf(ctx, "W17", _w.run_witness(), "C17")
